@@ -367,6 +367,9 @@ def rule_awake(ctx):
 
 def run(ctx):
     from ..report import SubCtx
+    from . import c12 as c12q
+    subq = SubCtx(ctx, 'C05.quant', 'a routine started from a routine begins at its parent\'s logical time unless a quant moves it: the quant conversion, as decided for C12')
+    c12q.rule_quant(subq)
     from . import c12
     sub_c12 = SubCtx(ctx, 'C05.beats', 'a routine converts its deltas through the beats/seconds map of its clock: the affine map and its readers, as decided for C12')
     c12.rule_affine(sub_c12)
